@@ -44,6 +44,8 @@ def strategy(tier):
         "outloc": st.sampled_from(["abs", "nested", "abs", "rel"]),
         # an earlier run of the same command line, minus -r or with another prefix, already filled the output directory
         "prior": st.sampled_from([None, None, "non-recursive", "other-prefix"]),
+        # a symbolic link 'zz_alias' to the first subdirectory, with input.follow_symlinks off (default) or on
+        "alias": st.sampled_from([None, None, "nofollow", "follow"]),
     })
 
 
@@ -69,6 +71,15 @@ def evaluate(case):
     with S.Sandbox("c14") as sb:
         inp = sb.path("in")
         S.materialize(tree, inp)
+        alias = case.get("alias") if tree["dirs"] else None
+        if alias:
+            import copy
+            target = sorted(tree["dirs"])[0]
+            os.symlink(target, os.path.join(inp, "zz_alias"))
+            res.labels.append("symlinked-directory:" + alias)
+            if alias == "follow":
+                # followed links are ordinary directories with the target's content; links that are not followed are not processed
+                tree = {"files": tree["files"], "dirs": dict(tree["dirs"], zz_alias=copy.deepcopy(tree["dirs"][target]))}
         cwd = sb.path("cwd")
         pats = C15.build_patterns(case, tree, inp)
         plist = [p for p, _ in pats]
@@ -83,6 +94,8 @@ def evaluate(case):
         cfg = sb.path("settings.yaml")
         with open(cfg, "w") as f:
             f.write("input:\n  auto_exclude_directories_without_cmake: %s\n" % ("true" if case["auto"] else "false"))
+            if alias:
+                f.write("  follow_symlinks: %s\n" % ("true" if alias == "follow" else "false"))
             s_pats = [p for p, s in pats if s == "s"]
             if s_pats:
                 f.write("  exclude_filters:\n" + "".join(f"    - {p!r}\n" for p in s_pats))
